@@ -18,6 +18,12 @@ class Skip(Exception):
 
 # ---------------------------------------------------------------- materialisation
 def mat_dgm(pts, rep):
+    if rep in ("view", "fortran", "f16", "i32", "u16"):
+        from props import dgmgen
+        try:
+            return dgmgen.materialize(pts, rep)
+        except InvalidCase as e:
+            raise Skip(str(e))
     if rep == "f64":
         return np.array(pts, dtype=np.float64).reshape(-1, 2) if pts else np.zeros((0, 2))
     if rep == "f32":
